@@ -390,6 +390,9 @@ def oracle_c19(tr):
     if not tr.ok:
         return None
     for op, res, b0, a0, b1, a1, now, prices in walk(tr):
+        if op[0] == 32 and res == "OK":
+            return {"key": "fees-paid-to-foreign-account",
+                    "what": f"collect_bank_fees accepted a fee ATA that is not the global fee wallet's (bank {op[1]}, token account of user {op[2]})"}
         if op[0] != 16 or res != "OK":
             # fee / insurance vaults only change through collect_fees, liquidation (insurance in), bankruptcy (insurance out)
             if res == "OK":
